@@ -165,6 +165,12 @@ def namesInterface(system: model.System, name: str) -> bool:
     if interface_prog.match(name):
         return True
     obj = system.objForFullName(name)
+    if obj is None:
+        # The interface might have been re-exported since the name was expanded.
+        try:
+            obj = system.find_object(name)
+        except LookupError:
+            obj = None
     if not isinstance(obj, ZopeInterfaceClass):
         return False
     return obj.isinterface
